@@ -37,7 +37,7 @@ fn info(tier: Tier) -> CheckInfo {
         ),
         assumptions: vec!["scripted storers acknowledge every write in part 1".into()],
     };
-    ci.rule.push_str(" Added: both parts also through the blocking Dht API; an accepted second put must reach a storer; every storer reply delivered one, two and three times.");
+    ci.rule.push_str(" Added: both parts also through the blocking Dht API; an accepted second put must reach a storer; every storer reply delivered one, two and three times. Part 3: real storage nodes instead of scripted ones (4 quick; 3, 4, 6 thorough): a stored seq 4, then put(seq 5, cas none / 4) and an identical call before every event of its lifetime, async and blocking API: both return Ok.");
     ci
 }
 
@@ -357,6 +357,114 @@ fn part2(kind: usize, replies: &[u8], order: usize, sync: bool, copies: usize) -
     (r, w.steps, problems)
 }
 
+
+// ------------------------------------------------------------------------------------- part 3
+// The same duplicate call against REAL storage nodes (which honour cas the BEP44 way): S servers
+// and one writer. The writer stores seq 4, then P1 = put(seq 5, cas) and an identical second call
+// before every event of P1's lifetime. Both must succeed and seq 5 must be what the network holds.
+
+struct Out3 {
+    r1: String,
+    r2: String,
+    events: u32,
+    steps: u64,
+    holders: usize,
+    problems: Vec<(String, String)>,
+}
+
+fn part3(servers: usize, with_cas: bool, at: Option<u32>, sync: bool) -> Out3 {
+    let mut w = World::new(Chooser::default_run());
+    let addrs: Vec<std::net::SocketAddrV4> = (0..=servers).map(|j| std::net::SocketAddrV4::new([20, 31, j as u8, 7].into(), 6881)).collect();
+    let mut nodes = vec![];
+    for j in 0..=servers {
+        let boots: Vec<std::net::SocketAddrV4> = if j == 0 { vec![] } else { vec![addrs[0]] };
+        let mut id = [0u8; 20];
+        id[0] = (j as u8 + 1).wrapping_mul(0x25);
+        id[19] = j as u8;
+        let mut nc = NodeCfg::new([20, 31, j as u8, 7], 6881).bootstrap(&boots).id(id);
+        if j < servers {
+            nc = nc.server();
+        }
+        let n = w.add_node(nc);
+        nodes.push(n);
+        let c = w.call_bootstrapped(n);
+        let h = w.now + 60 * SEC;
+        w.run_calls(&[c], h);
+    }
+    w.run_for(2 * SEC);
+    let a = nodes[servers];
+    let first = item(4, b"stored before", None);
+    let target: Id20 = *first.target().as_bytes();
+    let c0 = w.call_put_mutable(a, first, None);
+    let h = w.now + 60 * SEC;
+    w.run_calls(&[c0], h);
+    let mut problems = vec![];
+    if fmt(w.result(c0)) != "Ok" {
+        problems.push(("part3-setup".to_string(), format!("the preparing put of seq 4 returned {}", fmt(w.result(c0)))));
+    }
+    w.run_for(2 * SEC);
+    w.sync_api = sync;
+    let p1 = item(5, b"first", None);
+    let cas = if with_cas { Some(4) } else { None };
+    let c1 = w.call_put_mutable(a, p1.clone(), cas);
+    let mut c2: Option<usize> = None;
+    let mut events = 0u32;
+    let mut done1 = false;
+    if at == Some(0) {
+        c2 = Some(w.call_put_mutable(a, p1.clone(), cas));
+    }
+    let h = w.now + 60 * SEC;
+    let sig = |s: &dht::verif::ActorSnapshot| (s.core.put_queries.len(), s.core.iterative_queries.len(), s.core.put_queries.iter().map(|q| q.inflight_requests.len()).sum::<usize>());
+    let mut before = sig(&w.snapshot(a));
+    loop {
+        if w.result(c1).is_some() && c2.map(|c| w.result(c).is_some()).unwrap_or(true) {
+            break;
+        }
+        let Some(ev) = w.step(h) else { break };
+        if !done1 && w.result(c1).is_some() {
+            done1 = true;
+        }
+        if let Event::Iter { node } = &ev {
+            if *node == a && !done1 {
+                let after = sig(&w.snapshot(a));
+                if after != before {
+                    before = after;
+                    events += 1;
+                    if c2.is_none() && at == Some(events) {
+                        c2 = Some(w.call_put_mutable(a, p1.clone(), cas));
+                    }
+                }
+            }
+        }
+    }
+    let r1 = fmt(w.result(c1));
+    let r2 = fmt(c2.and_then(|c| w.result(c)));
+    w.sync_api = false;
+    w.run_for(2 * SEC);
+    let mut holders = 0;
+    for n in &nodes[..servers] {
+        let s = w.snapshot(*n);
+        if s.core.server.mutable.iter().any(|m| *m.target.as_bytes() == target && m.seq == 5) {
+            holders += 1;
+        }
+    }
+    if c2.is_some() {
+        let tag = if with_cas { "with-cas" } else { "no-cas" };
+        if r2 != "Ok" {
+            problems.push((format!("identical-put-fails/real-storers/second/{tag}"), format!("an identical put_mutable (seq 5, cas {cas:?}) issued while the first was in flight returned {r2} (first: {r1}); {holders} of {servers} storage nodes hold seq 5")));
+        }
+        if r1 != "Ok" {
+            problems.push((format!("identical-put-fails/real-storers/first/{tag}"), format!("put_mutable (seq 5, cas {cas:?}) returned {r1} after an identical call was made while it was in flight (second: {r2}); {holders} of {servers} storage nodes hold seq 5")));
+        }
+    } else if at.is_none() && r1 != "Ok" {
+        problems.push(("part3-setup".to_string(), format!("the undisturbed put of seq 5 returned {r1}")));
+    }
+    if let Some(dead) = w.any_actor_panicked() {
+        problems.push(("actor-died".into(), format!("actor thread died: node {dead} {}", w.death_reason(dead))));
+    }
+    Out3 { r1, r2, events, steps: w.steps, holders, problems }
+}
+
 fn run(tier: Tier, shard: usize, nshards: usize, _seed: u64) -> Partial {
     let mut out = Partial::default();
     let mut unit = 0usize;
@@ -418,6 +526,29 @@ fn run(tier: Tier, shard: usize, nshards: usize, _seed: u64) -> Partial {
             }
         }
     }
+    // ---- part 3
+    for &servers in if tier.is_quick() { &[4usize][..] } else { &[3usize, 4, 6][..] } {
+        for with_cas in [false, true] {
+            let base = part3(servers, with_cas, None, false);
+            out.gauge_max("events_in_first_put_lifetime_real_storers", base.events as u64);
+            for (k, d) in &base.problems {
+                out.violation(k.clone(), d.clone(), json!({"part": 3, "servers": servers, "with_cas": with_cas, "at": null, "sync": false}));
+            }
+            for (at, sync) in (0..=base.events).flat_map(|e| [(Some(e), false), (Some(e), true)]) {
+                if !mine() {
+                    continue;
+                }
+                let o = part3(servers, with_cas, at, sync);
+                out.add("executions", 1);
+                out.add("transitions", o.steps);
+                out.add("duplicate_calls_against_real_storers", (o.r2 != "PENDING") as u64);
+                out.outcomes.insert(format!("real:{servers}:{with_cas}->{}|{}|holders{}", o.r1, o.r2, o.holders));
+                for (k, d) in &o.problems {
+                    out.violation(format!("{k}{}", if sync { "/blocking-api" } else { "" }), format!("{}{d} [placement {at:?}, {servers} storage nodes]", if sync { "[blocking Dht API] " } else { "" }), json!({"part": 3, "servers": servers, "with_cas": with_cas, "at": at, "sync": sync}));
+                }
+            }
+        }
+    }
     out.witness("second put handled while the first was in flight", out.count("second_handled_in_flight") > 0 || shard != 0);
     out.witness("second put handled after the first completed", out.count("second_handled_after") > 0 || shard != 0);
     out.sample(json!({"part": 1, "second": "equal-seq-other-value", "cas": "no-cas", "placement": "before event 4 of the first put (store phase)"}));
@@ -427,7 +558,15 @@ fn run(tier: Tier, shard: usize, nshards: usize, _seed: u64) -> Partial {
 
 fn replay(v: &Value) -> Result<Option<Violation>, String> {
     let mut out = Partial::default();
-    if v.get("part").and_then(|p| p.as_u64()) == Some(2) {
+    if v.get("part").and_then(|p| p.as_u64()) == Some(3) {
+        let servers = v.get("servers").and_then(|x| x.as_u64()).ok_or("servers")? as usize;
+        let with_cas = v.get("with_cas").and_then(|x| x.as_bool()).ok_or("with_cas")?;
+        let at = v.get("at").and_then(|x| x.as_u64()).map(|x| x as u32);
+        let sync = v.get("sync").and_then(|x| x.as_bool()).unwrap_or(false);
+        for (k, d) in part3(servers, with_cas, at, sync).problems {
+            out.violation(format!("{k}{}", if sync { "/blocking-api" } else { "" }), d, v.clone());
+        }
+    } else if v.get("part").and_then(|p| p.as_u64()) == Some(2) {
         let kind = v.get("kind").and_then(|x| x.as_u64()).ok_or("kind")? as usize;
         let order = v.get("order").and_then(|x| x.as_u64()).ok_or("order")? as usize;
         let replies: Vec<u8> = v.get("replies").and_then(|x| x.as_array()).ok_or("replies")?.iter().filter_map(|x| x.as_u64().map(|x| x as u8)).collect();
